@@ -18,11 +18,11 @@ theorem runFrom_cons (c : Cfg) (s : St) (k : Nat) (e : Ev) (l : List Ev) :
 theorem runFrom_append (c : Cfg) (sk : St × Nat) (l1 l2 : List Ev) :
     runFrom c sk (l1 ++ l2) = runFrom c (runFrom c sk l1) l2 := by
   simp [runFrom, List.foldl_append]
-theorem run_eq (c : Cfg) (evs : List Ev) : run c evs = (runFrom c ({}, 0) evs).1 := rfl
+theorem run_eq (c : Cfg) (evs : List Ev) : run c evs = (runFrom c (init c, 0) evs).1 := rfl
 
 def nTurns (evs : List Ev) : Nat := (evs.filter (· == .turn)).length
 /-- the bytes an event makes available on a sequential source -/
-def pieceOf : Ev → Bytes | .arrive b => b | _ => []
+def pieceOf : Ev → Bytes | .arrive b => b | .arriveQ b => b | _ => []
 def arrived (evs : List Ev) : Bytes := evs.flatMap pieceOf
 
 theorem nTurns_cons (e : Ev) (l : List Ev) :
@@ -73,7 +73,7 @@ theorem runFrom_minv (c : Cfg) : ∀ (l : List Ev) (s : St) (k : Nat), MInv s.lo
     simpa [Nat.add_assoc, Nat.add_comm 1] using this
 
 theorem run_minv (c : Cfg) (evs : List Ev) : MInv (run c evs).log evs.length := by
-  have := runFrom_minv c evs {} 0 (by intro j hj; simp at hj)
+  have := runFrom_minv c evs (init c) 0 (by intro j hj; simp [init] at hj)
   simpa [run_eq] using this
 
 /-! ### the post-stop invariant (every configuration) -/
@@ -105,6 +105,11 @@ theorem step_stopped (c : Cfg) (s : St) (e : Ev) (hs : s.stopped = true) (hc : s
     split
     · exact ⟨hs, hc, rfl⟩
     · simp [hs, hc]
+  | arriveQ b =>
+    simp only [step]
+    split
+    · exact ⟨hs, hc, rfl⟩
+    · exact ⟨hs, hc, rfl⟩
 
 theorem stop_stinv (c : Cfg) (s : St) (k : Nat) : StInv s.log k (step c (mk s k) .stop) :=
   ⟨rfl, rfl, [], by simp [step, stop, mk], by simp⟩
@@ -136,8 +141,8 @@ theorem run_stop (c : Cfg) (pre post : List Ev) (hpost : ∀ e ∈ post, e ≠ .
           ∀ o ∈ ms, isMk o = true := by
   refine ⟨fun h => Nat.lt_irrefl _ (run_minv c pre _ h), ?_⟩
   rw [run_eq, runFrom_append]
-  have hk := runFrom_counter c pre {} 0
-  generalize hsk : runFrom c ({}, 0) pre = sk at hk
+  have hk := runFrom_counter c pre (init c) 0
+  generalize hsk : runFrom c (init c, 0) pre = sk at hk
   obtain ⟨s, k⟩ := sk
   simp only [Nat.zero_add] at hk; subst hk
   rw [runFrom_cons]
@@ -173,15 +178,12 @@ theorem Done.marker {c : Cfg} {s : St} (h : Done c s) (k : Nat) : Done c (C14L.m
 def NInv (c : Cfg) (nt : Nat) (s : St) : Prop := Running c nt s ∨ Done c s
 
 theorem startFails_nonseq (c : Cfg) (hseq : c.seq = false) (hr : RangeNF c) :
-    startFails c = (c.srcOpenFails || c.dstOpenFails || (decide (f0 c > 0) && c.seekFails)) := by
-  have hf := hr.from_eq
-  have hl := hr.f0_le
-  have e1 : seekNeeded c = decide (f0 c > 0) := by
-    simp only [seekNeeded, hseq, Bool.not_false, Bool.and_true, hf]
-    by_cases h : f0 c > 0 <;> simp [h]
+    startFails c = (c.srcOpenFails || c.dstOpenFails || (decide (rangeFrom c > 0) && c.seekFails)) := by
+  have hl := hr.from_le
+  have e1 : seekNeeded c = decide (rangeFrom c > 0) := by
+    simp only [seekNeeded, hseq, Bool.not_false, Bool.and_true]
   have e2 : decide ((rangeFrom c).toNat > c.src.length) = false := by
-    have : (rangeFrom c).toNat = f0 c := rfl
-    rw [this]; simp; omega
+    simp; omega
   simp only [startFails, e1, e2, Bool.or_false]
 
 theorem startFails_of_noFault (c : Cfg) (hnf : anyFault c = false) (h : c.seq = true ∨ RangeNF c) :
@@ -194,39 +196,65 @@ theorem startFails_of_noFault (c : Cfg) (hnf : anyFault c = false) (h : c.seq = 
     · rw [startFails_nonseq c hseq h, h1, h2, h3]; simp
   · simp [startFails, seekNeeded, hseq, h1, h2]
 
-theorem start_init_nonseq (c : Cfg) (hseq : c.seq = false) (hr : RangeNF c) :
-    NInv c 0 (start c (mk {} 0)) ∧
-    (startFails c = true → (start c (mk {} 0)).log = [Obs.ev 0, err, fin] ∧
-                            (start c (mk {} 0)).pending = .none) := by
+/-- a copier on which `start()` begins a (new) run: the timer is idle, no copier signal is in the
+    log yet, no device call has been counted, the source stands at `prePos` -/
+structure Fresh (c : Cfg) (s : St) : Prop where
+  pos : s.pos = c.prePos
+  pending : s.pending = .none
+  reads : s.reads = 0
+  writes : s.writes = 0
+  nowr : written s.log = []
+  nofin : Obs.countP isFin s.log = 0
+  noerr : Obs.countP isErr s.log = 0
+
+theorem fresh_init (c : Cfg) : Fresh c (init c) :=
+  ⟨rfl, rfl, rfl, rfl, rfl, rfl, rfl⟩
+
+theorem start_fresh_nonseq (c : Cfg) (hseq : c.seq = false) (hr : RangeNF c) (s : St) (k : Nat)
+    (hf : Fresh c s) : NInv c 0 (start c (mk s k)) := by
+  have hw : written (s.log ++ [Obs.ev k]) = [] := by
+    rw [written_append, written_ev, List.append_nil]; exact hf.nowr
+  have hfin : Obs.countP isFin (s.log ++ [Obs.ev k]) = 0 := by
+    rw [cnt_append, hf.nofin]; simp [cnt_cons]
+  have herr : Obs.countP isErr (s.log ++ [Obs.ev k]) = 0 := by
+    rw [cnt_append, hf.noerr]; simp [cnt_cons]
   rw [start_eq]
   cases hsf : startFails c
-  · refine ⟨Or.inl ?_, by intro h; cases h⟩
+  · refine Or.inl ?_
     simp only [Bool.false_eq_true, if_false, hseq]
-    refine ⟨rfl, rfl, rfl, rfl, ?_, Or.inl rfl, ?_, ?_, ?_, hsf, by intro j hj; omega⟩
-    · show (if seekNeeded c = true then (rangeFrom c).toNat else 0) = f0 c + 0 * c.block
-      have hf := hr.from_eq
-      have : (rangeFrom c).toNat = f0 c := rfl
-      rw [this]
+    refine ⟨rfl, rfl, hf.reads, hf.writes, ?_, Or.inl rfl, ?_, hfin, herr, hsf, by intro j hj; omega⟩
+    · show (if seekNeeded c = true then (rangeFrom c).toNat else s.pos) = f0 c + 0 * c.block
+      rw [hf.pos]
       cases hsn : seekNeeded c
       · simp only [seekNeeded, hseq, Bool.not_false, Bool.and_true, decide_eq_false_iff_not] at hsn
-        simp; omega
-      · simp
-    · show written ([] ++ [Obs.ev 0]) = _
-      simp [written]
-    · show Obs.countP isFin ([] ++ [Obs.ev 0]) = 0
-      simp [cnt_cons]
-    · show Obs.countP isErr ([] ++ [Obs.ev 0]) = 0
-      simp [cnt_cons]
+        rw [f0_of_zero c hsn]; simp
+      · simp only [seekNeeded, hseq, Bool.not_false, Bool.and_true, decide_eq_true_eq] at hsn
+        rw [f0_of_pos c hsn]; simp
+    · show written (s.log ++ [Obs.ev k]) = _
+      rw [hw]; simp
   · simp only [if_true]
-    refine ⟨Or.inr ⟨rfl, ?_, ?_, Or.inr ⟨?_, ?_⟩⟩, fun _ => ⟨rfl, rfl⟩⟩
-    · exact ⟨[Obs.ev 0, err], [], rfl, by simp [cnt_cons], by simp⟩
-    · show written ([] ++ [Obs.ev 0] ++ [err, fin]) <+: _
-      simp [written, err, fin]
-    · show Obs.countP isErr ([] ++ [Obs.ev 0] ++ [err, fin]) = 1
-      simp [cnt_cons]
+    refine Or.inr ⟨hf.pending, ?_, ?_, Or.inr ⟨?_, ?_⟩⟩
+    · show Closed (s.log ++ [Obs.ev k] ++ [err, fin])
+      have : s.log ++ [Obs.ev k] ++ [err, fin] = (s.log ++ [Obs.ev k] ++ [err]) ++ [fin] := by simp
+      rw [this]; apply Closed.of_snoc_fin
+      rw [cnt_append, hfin]; simp [cnt_cons]
+    · show written (s.log ++ [Obs.ev k] ++ [err, fin]) <+: _
+      rw [written_append, hw]; simp [written, err, fin]
+    · show Obs.countP isErr (s.log ++ [Obs.ev k] ++ [err, fin]) = 1
+      rw [cnt_append, herr]; simp [cnt_cons]
     · rw [startFails_nonseq c hseq hr] at hsf
       simp only [anyFault]
       cases h1 : c.srcOpenFails <;> cases h2 : c.dstOpenFails <;> cases h3 : c.seekFails <;> simp_all
+
+theorem start_init_nonseq (c : Cfg) (hseq : c.seq = false) (hr : RangeNF c) :
+    NInv c 0 (start c (mk (init c) 0)) ∧
+    (startFails c = true → (start c (mk (init c) 0)).log = [Obs.ev 0, err, fin] ∧
+                            (start c (mk (init c) 0)).pending = .none) := by
+  refine ⟨start_fresh_nonseq c hseq hr _ 0 (fresh_init c), ?_⟩
+  intro hsf
+  rw [start_eq]
+  simp only [hsf, if_true]
+  exact ⟨rfl, rfl⟩
 
 theorem step_turn_done (c : Cfg) (s : St) (k : Nat) (h : s.pending = .none) :
     step c (mk s k) .turn = mk s k := by
@@ -268,6 +296,13 @@ theorem step_ninv (c : Cfg) (hseq : c.seq = false) (hb : 1 ≤ c.block) (hr : Ra
     rcases h with h | h
     · exact Or.inl (h.marker k)
     · exact Or.inr (h.marker k)
+  | arriveQ b =>
+    have : step c (mk s k) (.arriveQ b) = mk s k := by simp [step, hseq]
+    rw [this]
+    simp only [reduceCtorEq, if_false, Nat.add_zero]
+    rcases h with h | h
+    · exact Or.inl (h.marker k)
+    · exact Or.inr (h.marker k)
 
 theorem runFrom_ninv (c : Cfg) (hseq : c.seq = false) (hb : 1 ≤ c.block) (hr : RangeNF c) :
     ∀ (l : List Ev) (s : St) (k nt : Nat), (∀ e ∈ l, e ≠ .start ∧ e ≠ .stop) → NInv c nt s →
@@ -281,14 +316,22 @@ theorem runFrom_ninv (c : Cfg) (hseq : c.seq = false) (hb : 1 ≤ c.block) (hr :
     obtain ⟨h1, h2⟩ := hl e (List.mem_cons_self ..)
     exact ih _ _ _ (fun e he => hl e (List.mem_cons_of_mem _ he)) (step_ninv c hseq hb hr nt s k e h1 h2 h)
 
+/-- `start` on a fresh copier (whatever its log holds besides copier signals) and any events
+    without `start`/`stop` -/
+theorem runFrom_start_ninv (c : Cfg) (hseq : c.seq = false) (hb : 1 ≤ c.block) (hr : RangeNF c)
+    (s : St) (k : Nat) (hf : Fresh c s) (r : List Ev) (hrs : ∀ e ∈ r, e ≠ .start ∧ e ≠ .stop) :
+    NInv c (nTurns r) (runFrom c (s, k) (.start :: r)).1 := by
+  rw [runFrom_cons]
+  have := runFrom_ninv c hseq hb hr r _ (k + 1) 0 hrs (start_fresh_nonseq c hseq hr s k hf)
+  rw [Nat.zero_add] at this
+  exact this
+
 /-- a random-access copy after `start` and any events without `stop` -/
 theorem run_ninv (c : Cfg) (hseq : c.seq = false) (hb : 1 ≤ c.block) (hr : RangeNF c)
     (r : List Ev) (hrs : ∀ e ∈ r, e ≠ .start ∧ e ≠ .stop) :
     NInv c (nTurns r) (run c (.start :: r)) := by
-  rw [run_eq, runFrom_cons]
-  have := runFrom_ninv c hseq hb hr r _ 1 0 hrs (start_init_nonseq c hseq hr).1
-  rw [Nat.zero_add] at this
-  exact this
+  rw [run_eq]
+  exact runFrom_start_ninv c hseq hb hr (init c) 0 (fresh_init c) r hrs
 
 /-- enough turns: the block loop has terminated -/
 theorem NInv.done {c : Cfg} {nt : Nat} {s : St} (h : NInv c nt s) (hb : 1 ≤ c.block)
@@ -332,13 +375,14 @@ theorem range'_map_mk (k n : Nat) : ∀ o ∈ (List.range' k n).map Obs.ev, isMk
   obtain ⟨j, _, rfl⟩ := ho
   rfl
 
-/-- `setRange(f, t)` with `0 ≤ t < f ≤ |src|` on a random-access source, no device fault: the
-    first block is cut to `t + 1 - f ≤ 0` bytes; a negative count makes `write` fail (error,
-    then completion), the count 0 (`t = f - 1`, the empty range) just completes -/
+/-- `setRange(f, t)` with `0 ≤ t < p ≤ |src|` on a random-access source, where `p` is the position
+    of the first byte (`f` if > 0, else where the source stands), no device fault: the first block
+    is cut to `t + 1 - p ≤ 0` bytes; a negative count makes `write` fail (error, then completion),
+    the count 0 (`t = p - 1`, the empty range) just completes -/
 theorem run_reversed (c : Cfg) (hseq : c.seq = false) (hnf : anyFault c = false) (f t : Int)
-    (hrange : c.range = some (f, t)) (ht0 : 0 ≤ t) (htf : t < f) (hfl : f ≤ c.src.length) (n : Nat) :
+    (hrange : c.range = some (f, t)) (ht0 : 0 ≤ t) (htf : t < firstPos c) (hfl : firstPos c ≤ c.src.length) (n : Nat) :
     (run c (.start :: List.replicate (n + 1) Ev.turn)).log =
-      [Obs.ev 0, Obs.ev 1] ++ (if t + 1 < f then [err, fin] else [fin]) ++ (List.range' 2 n).map Obs.ev ∧
+      [Obs.ev 0, Obs.ev 1] ++ (if t + 1 < firstPos c then [err, fin] else [fin]) ++ (List.range' 2 n).map Obs.ev ∧
     (run c (.start :: List.replicate (n + 1) Ev.turn)).pending = .none := by
   have e1 : rangeFrom c = f := by simp [rangeFrom, hrange]
   have e2 : rangeTo c = t := by simp [rangeTo, hrange]
@@ -346,37 +390,47 @@ theorem run_reversed (c : Cfg) (hseq : c.seq = false) (hnf : anyFault c = false)
   obtain ⟨⟨⟨⟨h1, h2⟩, h3⟩, h4⟩, h5⟩ := hnf
   have h4' : c.readFailAt = none := by cases h : c.readFailAt <;> simp_all
   have h5' : c.writeFailAt = none := by cases h : c.writeFailAt <;> simp_all
-  have hsn : seekNeeded c = true := by simp [seekNeeded, hseq, e1]; omega
+  have hpos : (if seekNeeded c = true then (rangeFrom c).toNat else c.prePos) = firstPos c := by
+    simp only [seekNeeded, hseq, Bool.not_false, Bool.and_true, decide_eq_true_eq, firstPos]
+  generalize firstPos c = p at htf hfl hpos ⊢
   have hsf : startFails c = false := by
-    simp only [startFails, h1, h2, h3, hsn, e1, Bool.false_or, Bool.true_and, decide_eq_false_iff_not]
-    omega
+    simp only [startFails, h1, h2, h3, Bool.false_or, Bool.and_eq_false_iff, decide_eq_false_iff_not]
+    cases hsn : seekNeeded c
+    · exact Or.inl rfl
+    · right; rw [hsn] at hpos; simp only [if_true] at hpos; omega
   rw [run_eq, runFrom_cons, List.replicate_succ, runFrom_cons]
-  have hst : step c (mk {} 0) .start = start c (mk {} 0) := rfl
+  have hst : step c (mk (init c) 0) .start = start c (mk (init c) 0) := rfl
   rw [hst, start_eq]
-  simp only [hsf, Bool.false_eq_true, if_false, hsn, if_true, hseq, e1]
+  simp only [hsf, Bool.false_eq_true, if_false, hseq]
+  have hp0 : (mk (init c) 0).pos = c.prePos := rfl
+  rw [hp0, hpos]
   have hturn : ∀ s : St, s.pending = .nextBlock → step c s .turn = nextBlock c { s with pending := .none } := by
     intro s hs; simp only [step]; rw [hs]
   rw [hturn _ rfl, nextBlock_eq _ _ rfl]
   simp only [h4', mk]
-  have hdl : (nbData c f.toNat).length = min c.block (c.src.length - f.toNat) := by simp [nbData]
-  have hpast : nbPast c f.toNat = true := by
+  have hdl : (nbData c p).length = min c.block (c.src.length - p) := by simp [nbData]
+  have hpast : nbPast c p = true := by
     simp only [nbPast, e2, nbPos, hdl, Bool.and_eq_true, bne_iff_ne, ne_eq, decide_eq_true_eq]
     omega
-  have hn : nbN c f.toNat = t + 1 - f := by
+  have hn : nbN c p = t + 1 - p := by
     simp only [nbN, hpast, if_true, e2, nbPos, hdl]; omega
-  have hdone : nbDone c f.toNat = true := by simp [nbDone, hpast]
-  have hd : wr (nbD c f.toNat) = [] := by
-    have : nbD c f.toNat = [] := by
+  have hdone : nbDone c p = true := by simp [nbDone, hpast]
+  have hd : wr (nbD c p) = [] := by
+    have : nbD c p = [] := by
       simp only [nbD, hn]
-      have : (t + 1 - f).toNat = 0 := by omega
+      have : (t + 1 - (p : Int)).toNat = 0 := by omega
       rw [this]; rfl
     rw [this]; rfl
-  have hwf : wfail c 0 (nbN c f.toNat) = decide (t + 1 < f) := by
+  have hwf : wfail c 0 (nbN c p) = decide (t + 1 < (p : Int)) := by
     simp only [wfail, hn, h5']
-    by_cases h : t + 1 < f
+    by_cases h : t + 1 < (p : Int)
     · simp [h]; omega
     · simp [h]; omega
-  by_cases hlt : t + 1 < f
+  have hr0 : (init c).reads = 0 := rfl
+  have hw0 : (init c).writes = 0 := rfl
+  have hl0 : (init c).log = [] := rfl
+  simp only [hr0, hw0, hl0]
+  by_cases hlt : t + 1 < (p : Int)
   · simp only [hlt, if_true, decide_true] at hwf ⊢
     simp only [show (none == some 0) = false from rfl, Bool.false_eq_true, if_false, hwf, if_true]
     rw [runFrom_idle c n _ _ rfl]
